@@ -676,7 +676,7 @@ func init() {
 	ps := &PropSpec{
 		ID: "C19", Level: "exploration",
 		Verdict: []string{"decode."},
-		Rule: "disk corruption as a fault kind: the registers of a freshly generated healthy ledger (every slab kind: array/map data and index slabs, external collision groups, large-value slabs, slabs with inlined arrays/maps/compact maps and shared type infos; version 1 from the library plus the same slabs re-assembled in the version-0 layout) receive seeded stored-byte faults - bit flips, byte sets, truncation (torn write), extension, splice of another register's tail (misdirected write), edits of CBOR length/count heads and tag numbers, format-aware edits located with the independent parser (child count vs child records of index slabs including counts that alias the true one in 16-bit arithmetic, element counts, digest lengths, indexes into the shared type-info / extra-data section, and coordinated edits of the count recorded in a shared map / compact-map entry together with the number of values of the inlined containers that refer to it), head-flag flips, byte insertion/deletion - and plain random strings of length 0..64; each is read back through DecodeSlab, PersistentSlabStorage.Retrieve, BatchPreload (1 and 4 workers, parallel path) and the raw head queries; oracle: no panic, returns (per-run watchdog in the orchestrator), heap allocated during the call <= 1 MiB + 256 x input length (harness-chosen reading of 'out of proportion'), accessors of accepted slabs panic-free. Non-trivial = a run that probed >= 50 mutated registers of >= 3 slab kinds with both accepted and rejected outcomes; distinct by corpus hash",
+		Rule: "disk corruption as a fault kind: the registers of a freshly generated healthy ledger (every slab kind: array/map data and index slabs, external collision groups, large-value slabs, slabs with inlined arrays/maps/compact maps and shared type infos; version 1 from the library plus the same slabs re-assembled in the version-0 layout) receive seeded stored-byte faults - bit flips, byte sets, truncation (torn write), extension, splice of another register's tail (misdirected write), edits of CBOR length/count heads and tag numbers, format-aware edits located with the independent parser (child count vs child records of index slabs including counts that alias the true one in 16-bit arithmetic, element counts, digest lengths, indexes into the shared type-info / extra-data section, and coordinated edits of the count recorded in a shared map / compact-map entry together with the number of values of the inlined containers that refer to it; wide (4- and 8-byte) integers with boundary values in index, count and capacity positions; amplification: long digest list, empty key list, one inlined compact map repeated up to thousands of times), head-flag flips, byte insertion/deletion - and plain random strings of length 0..64; each is read back through DecodeSlab, PersistentSlabStorage.Retrieve, BatchPreload (1 and 4 workers, parallel path) and the raw head queries; oracle: no panic, returns (per-run watchdog in the orchestrator), heap allocated during the call <= 1 MiB + 256 x input length (harness-chosen reading of 'out of proportion'), accessors of accepted slabs panic-free. Non-trivial = a run that probed >= 50 mutated registers of >= 3 slab kinds with both accepted and rejected outcomes; distinct by corpus hash",
 		ExpectedReach: []string{"decode.accepted", "decode.rejected", "disk.flip", "disk.tear", "disk.splice", "disk.head-edit", "disk.random", "disk.struct.child-count", "disk.struct.shared-section-index", "disk.struct.element-count", "disk.struct.map-elements-head", "disk.struct.coordinated-count", "disk.struct.count-alias", "corpus.v0", "corpus.kind.arr.meta", "corpus.kind.map.coll", "corpus.kind.storable", "corpus.kind.map.meta"},
 		Assumptions: []string{"an accepted slab is not required to be meaningful", "heap proportionality bound chosen by the harness: 1 MiB + 256 x len(input), measured with runtime.MemStats.TotalAlloc around each call"},
 	}
